@@ -1,6 +1,7 @@
 package wire
 
 import (
+	"bytes"
 	"encoding/binary"
 	"encoding/hex"
 )
@@ -105,4 +106,61 @@ func brotliStream(b []byte) []byte {
 		first = false
 	}
 	return append(out, 0x03) // ISLAST=1, ISLASTEMPTY=1
+}
+
+// zstdDeclared returns the largest window a zstd frame header found anywhere in raw announces
+// (the decoder allocates its history buffer from this figure before it reads any block).
+func zstdDeclared(raw []byte) uint64 {
+	var worst uint64
+	magic := []byte{0x28, 0xb5, 0x2f, 0xfd}
+	for off := 0; ; {
+		i := bytes.Index(raw[off:], magic)
+		if i < 0 {
+			return worst
+		}
+		p := off + i + 4
+		off = p
+		if p >= len(raw) {
+			return worst
+		}
+		fhd := raw[p]
+		p++
+		single := fhd&0x20 != 0
+		var window uint64
+		if !single {
+			if p >= len(raw) {
+				continue
+			}
+			wd := raw[p]
+			p++
+			base := uint64(1) << (10 + uint(wd>>3))
+			window = base + (base/8)*uint64(wd&7)
+		}
+		p += []int{0, 1, 2, 4}[fhd&3]
+		fcsLen := []int{0, 2, 4, 8}[fhd>>6]
+		if fhd>>6 == 0 && single {
+			fcsLen = 1
+		}
+		if single {
+			if p+fcsLen > len(raw) {
+				continue
+			}
+			var v uint64
+			for k := fcsLen - 1; k >= 0; k-- {
+				v = v<<8 | uint64(raw[p+k])
+			}
+			if fcsLen == 2 {
+				v += 256
+			}
+			window = v
+		}
+		if window > worst {
+			worst = window
+		}
+	}
+}
+
+// zstdWindowFrame is a 10-byte frame that declares a window of 2^log bytes and carries one byte.
+func zstdWindowFrame(log uint) []byte {
+	return []byte{0x28, 0xb5, 0x2f, 0xfd, 0x00, byte((log - 10) << 3), 0x09, 0x00, 0x00, 'x'}
 }
